@@ -95,9 +95,13 @@ def _args(sub, R, C):
     """Returns the list of (description, array-like argument, expected shape, flat (r,c) list in C order)."""
     full = np.array([[wid(r, c) for c in range(C)] for r in range(R)])
     out = [("full2d", full, full.shape), ("flatlist", [wid(r, c) for r in range(R) for c in range(C)], (R * C,))]
+    # the same wells in arrays that are not C-ordered in memory
+    out.append(("fortran2d", np.asfortranarray(full), full.shape))
+    out.append(("transposed", full.T, full.T.shape))
     t = sub["type"]
     if t == "slice":
         out.append(("slice", full[sub["r0"] : sub["r1"], sub["c0"] : sub["c1"]], (sub["r1"] - sub["r0"], sub["c1"] - sub["c0"])))
+        out.append(("slice.T", full[sub["r0"] : sub["r1"], sub["c0"] : sub["c1"]].T, (sub["c1"] - sub["c0"], sub["r1"] - sub["r0"])))
     elif t == "index2d":
         arr = np.array([[wid(*cell) for cell in row] for row in sub["idx"]])
         out.append(("index2d", arr, arr.shape))
@@ -235,6 +239,16 @@ def check_case(case) -> Obs:
         if mode == "column" and x[1:] != w[1:]:
             obs.bad("C15/rand-column", f"{R}x{C} seed={seed}: column mode maps {w} to {x}")
             break
+    # the mapping is determined by the seed alone - not by the order in which wells are asked for
+    rnd3 = robotools.WellRandomizer((R, C), seed, mode=mode)
+    rev = list(reversed(allwells))
+    img3 = _flat(rnd3.randomize_wells(rev))
+    if dict(zip(rev, img3)) != dict(zip(allwells, img)):
+        obs.bad("C15/rand-query-order", f"{R}x{C} seed={seed} mode={mode}: a randomizer asked for the wells in reverse order gives another mapping")
+    rnd4 = robotools.WellRandomizer((R, C), seed, mode=mode)
+    back4 = _flat(rnd4.derandomize_wells(list(reversed(img))))
+    if back4 != rev:
+        obs.bad("C15/rand-query-order", f"{R}x{C} seed={seed} mode={mode}: a fresh randomizer with the same seed does not invert another one's randomisation")
     lookup = dict(zip(allwells, img))
     for name, arg, shape in _args(case["sub"], R, C):
         src = _flat(arg)
